@@ -24,7 +24,12 @@ RULE = ('Generated <rpc-reply> documents (random binding of the base namespace, 
         'modes, now and then another operation in between), for every path on which a profile does something to the reply: Junos get-schema with <data> '
         'in the base namespace / in no namespace / in the monitoring namespace, get/get-config/rpc/vendor operations through the junos, alu and sros reply '
         'transforms, the flag-forcing operations, 11 MB / depth-300 replies 2-4 times in a row. Besides the per-call oracle: everything the caller sees '
-        'of the k-th result (message-id normalised) equals what it saw of the first call with the same operation, reply text and settings.')
+        'of the k-th result (message-id normalised) equals what it saw of the first call with the same operation, reply text and settings. '
+        'Woken threads (round 8): in every history the event an RPC object is created with makes the delivering thread, once it has set the event, '
+        'stand still until the thread it woke (the caller blocked in the synchronous call; a thread waiting on rpc.event of an asynchronous call that '
+        'reads the reply views at once) has finished - so the woken thread always runs before anything the delivery does after the wake-up; '
+        'dedicated histories of 1-3 such calls for every profile x path on which something is done to the reply at delivery (reply class, '
+        'per-call huge-tree flag incl. 11 MB / depth-300 replies, Junos get-schema repair); oracle unchanged.')
 ASSUMES = ['libxml2 parsing, libxslt execution and libxml2 resource limits are oracles (the XSLT is modelled by hand as three templates)',
            'the remove_blank_text parsers drop only white-space-only text nodes (checked on every Junos case); which of them are dropped is libxml2 heuristics and is not modelled',
            'parse_root (iterparse, first start event) in Session._dispatch_message takes no huge_tree flag; it stops at the root start tag and is not counted as a full-document parse site']
@@ -338,7 +343,51 @@ def _evaluate_hist(case, r):
         if obs != f[1]:
             r.fail('call %d (%s %s, repeat %d): the result differs from that of call %d - the same operation answered with the same reply text under '
                    'the same settings earlier on this Manager' % (k, c['mode'], c['op'], f[2], f[0]), expected=short(f[1]), actual=short(obs))
-    with F.ParseSites() as ps:
+    # ---- the race between the delivering thread and the thread woken by the reply, made deterministic (round 8): the event an RPC object is
+    # created with is an Event whose set() - called by ANOTHER thread while the harness knows a thread waiting on it - does not return before
+    # that thread has finished with the reply.  Whatever the delivering thread does to the reply object AFTER waking the waiter thus comes too
+    # late, every time; a delivery that wakes the waiter last loses nothing.  (module-level name rebound in the harness, no source hook)
+    import ncclient.operations.rpc as rpc_mod
+    race = {'worker': None, 'done': None, 'engaged': 0}
+    class RaceEvent(threading.Event):
+        def __init__(self_):
+            threading.Event.__init__(self_); self_.maker = threading.current_thread(); self_.watchers = []
+        def set(self_):
+            threading.Event.set(self_)
+            me = threading.current_thread()
+            if race['worker'] is not None and self_.maker is race['worker'] and me is not race['worker']:
+                race['engaged'] += 1; race['done'].wait(5)
+            for th_, done_ in self_.watchers:
+                if me is not th_:
+                    race['engaged'] += 1; done_.wait(5)
+    def do_read(ps, step, waited=False):
+        k = step[1]; c = calls[k]; rpc = st[k]['rpc']
+        if rpc is None or not (st[k]['delivered'] or waited): return
+        reply = rpc.reply
+        if reply is None:
+            r.fail('call %d: no reply on the RPC object after %s' % (k, 'its event was set' if waited else 'delivery')); return
+        n0 = len(ps.log)
+        out, res = 'reply', reply
+        try:
+            for v in step[2]:
+                name = READS[v % len(READS)]
+                if name == 'data': name = {1: 'data_ele', 2: 'data'}.get(CCODE[c['op']], 'ok')
+                getattr(reply, name)
+            reply.parse()                                  # reading .xml alone does not parse
+        except etree.XMLSyntaxError as ex: out, res = 'parse-error', ex
+        except AttributeError as ex: out, res = 'hook-error', ex
+        sites = relabel(ps.log[n0:])
+        first_read = st[k]['n_read'] == 0; st[k]['n_read'] += 1
+        flag = st[k]['flag']
+        def mreq(rk, exp, c=c, flag=flag): return [10, PCODE[prof], CCODE[c['op']], int(flag), exp]
+        jr = r if first_read else Res()
+        judge(jr, c, prof, c['op'], flag, 0, st[k]['raw'], out, res, sites, mreq, mode='async',
+              tag='call %d (async %s, read %d): ' % (k, c['op'], st[k]['n_read']))
+        if jr is not r: r.fails.extend(jr.fails)
+        if first_read: same_as_first(k, out, res, 'async')
+        st[k]['seen'] = (type(reply).__name__, reply.xml, sites[0][1] if sites else st[k].get('seen', (0, 0, None))[2])
+    def run_steps(ps):
+        nonlocal mgr_huge
         i = 0
         while i < len(steps):
             step = steps[i]; i += 1
@@ -375,17 +424,22 @@ def _evaluate_hist(case, r):
                     plan['inline'] = during
                     out, res = invoke(m, op)
                 else:
-                    box = {}
-                    def worker():
+                    box = {}; done = threading.Event(); e0 = race['engaged']
+                    def worker(done=done):
                         try: box['r'] = invoke(m, op)
                         except BaseException as ex: box['x'] = ex
-                    th = threading.Thread(target=worker); th.start()
-                    if not plan['sent'].wait(10):
-                        r.fail('call %d: request was not sent' % k); return
-                    for d in during: dispatch(d)
-                    th.join(20)
+                        finally: done.set()
+                    th = threading.Thread(target=worker); race['worker'], race['done'] = th, done; th.start()
+                    try:
+                        if not plan['sent'].wait(10):
+                            r.fail('call %d: request was not sent' % k); return
+                        for d in during: dispatch(d)        # the caller is woken in here and runs to its end before the delivery returns
+                        th.join(20)
+                    finally: race['worker'] = None
                     if th.is_alive():
                         r.fail('call %d: the waiting caller did not return after its reply was delivered' % k); return
+                    if race['engaged'] == e0:
+                        r.fail('harness: call %d: the event of the waiting RPC object was not seen being set by the delivering thread' % k); return
                     if 'x' in box: raise box['x']
                     out, res = box['r']
                 sites = relabel(ps.log[n0:])
@@ -399,8 +453,29 @@ def _evaluate_hist(case, r):
                 if st[k]['mid'] is None:
                     r.fail('harness: delivery for call %d before the call' % k); return
                 first = kind == 'deliver' and not st[k]['delivered']
-                dispatch(step)
                 rpc = st[k]['rpc']
+                nxt = steps[i] if i < len(steps) else None
+                if first and rpc is not None and calls[k].get('waiter') and nxt and nxt[0] == 'read' and nxt[1] == k:
+                    # a thread of the caller waits on rpc.event and reads the reply as soon as it is woken (the read step that follows)
+                    wbox = {}; wdone = threading.Event(); e0 = race['engaged']
+                    def watcher(rpc=rpc, nxt=nxt, wdone=wdone, wbox=wbox, k=k):
+                        try:
+                            if rpc.event.wait(10): do_read(ps, nxt, waited=True)
+                            else: r.fail('call %d: the thread waiting on rpc.event was not woken by the delivery' % k)
+                        except BaseException as ex: wbox['x'] = ex
+                        finally: wdone.set()
+                    wt = threading.Thread(target=watcher)
+                    if isinstance(rpc.event, RaceEvent): rpc.event.watchers.append((wt, wdone))
+                    st[k]['watched'] = i
+                    wt.start(); dispatch(step); wt.join(20)
+                    if wt.is_alive():
+                        r.fail('call %d: the thread waiting on rpc.event did not finish' % k); return
+                    if 'x' in wbox: raise wbox['x']
+                    if race['engaged'] == e0:
+                        r.fail('harness: call %d: the event of the RPC object was not seen being set by the delivering thread' % k); return
+                    r.hist['woken thread reads the reply'] = 'async'
+                else:
+                    dispatch(step)
                 if first and rpc is not None and (rpc.reply is None or not rpc.event.is_set()):
                     r.fail('call %d: the reply was dispatched but did not reach the RPC object' % k, expected='reply', actual=None)
             elif kind == 'rpc_huge':
@@ -409,33 +484,18 @@ def _evaluate_hist(case, r):
                 st[k]['rpc'].huge_tree = step[2]; events.append([3, k + 1, int(step[2])])
                 if not st[k]['delivered']: st[k]['flag'] = step[2]
             elif kind == 'read':
-                k = step[1]; c = calls[k]; rpc = st[k]['rpc']
-                if rpc is None or not st[k]['delivered']: continue
-                reply = rpc.reply
-                if reply is None:
-                    r.fail('call %d: no reply on the RPC object after delivery' % k); continue
-                n0 = len(ps.log)
-                out, res = 'reply', reply
-                try:
-                    for v in step[2]:
-                        name = READS[v % len(READS)]
-                        if name == 'data': name = {1: 'data_ele', 2: 'data'}.get(CCODE[c['op']], 'ok')
-                        getattr(reply, name)
-                    reply.parse()                                  # reading .xml alone does not parse
-                except etree.XMLSyntaxError as ex: out, res = 'parse-error', ex
-                except AttributeError as ex: out, res = 'hook-error', ex
-                sites = relabel(ps.log[n0:])
-                first_read = st[k]['n_read'] == 0; st[k]['n_read'] += 1
-                flag = st[k]['flag']
-                def mreq(rk, exp, c=c, flag=flag): return [10, PCODE[prof], CCODE[c['op']], int(flag), exp]
-                jr = r if first_read else Res()
-                judge(jr, c, prof, c['op'], flag, 0, st[k]['raw'], out, res, sites, mreq, mode='async',
-                      tag='call %d (async %s, read %d): ' % (k, c['op'], st[k]['n_read']))
-                if jr is not r: r.fails.extend(jr.fails)
-                if first_read: same_as_first(k, out, res, 'async')
-                st[k]['seen'] = (type(reply).__name__, reply.xml, sites[0][1] if sites else st[k].get('seen', (0, 0, None))[2])
+                if st[step[1]].get('watched') == i - 1: continue          # done by the thread that waited on rpc.event
+                do_read(ps, step)
             else:
                 r.fail('harness: unknown step %r' % (step,)); return
+        return 'ok'
+    real_event = getattr(rpc_mod, 'Event', None)
+    if real_event is not None: rpc_mod.Event = RaceEvent
+    try:
+        with F.ParseSites() as ps:
+            if run_steps(ps) != 'ok': return
+    finally:
+        if real_event is not None: rpc_mod.Event = real_event
     # ---- the whole history against the model: per call class, flag, registration, the reply object (class, text, flag it was parsed with)
     lst = s.get_listener_instance(RPCReplyListener)
     table = getattr(lst, '_id2rpc', None)
@@ -472,10 +532,11 @@ def _evaluate_hist(case, r):
         r.mcalls.append(([9, int(case['huge0']), 0, events], impl, 'history: RPC objects and their replies at the end', post))
     r.hist['hist calls'] = len(order)
     r.hist['same call repeated on one Manager'] = max([f[2] for f in firsts.values()] or [0])
+    r.hist['deliveries that woke a waiting thread (which ran to its end before the delivery returned)'] = min(race['engaged'], 4)
     r.hist['hist modes'] = '+'.join(sorted(set(c['mode'] for c in calls)))
 
 
-def gen_hist(rng, g, prof, ncalls=None, pick=None, modes=None, raise_modes=None):
+def gen_hist(rng, g, prof, ncalls=None, pick=None, modes=None, raise_modes=None, waiters=0):
     ncalls = ncalls or rng.choice([1, 2, 2, 3, 3, 4])
     calls, steps = [], []
     issued, pending, unread, asyncs, answered = 0, [], [], [], []
@@ -487,6 +548,7 @@ def gen_hist(rng, g, prof, ncalls=None, pick=None, modes=None, raise_modes=None)
             except Exception: reply, exp = R('<data/>'), None
         c = {'op': op, 'mode': rng.choice(modes or ['async', 'async', 'async', 'sync', 'syncthread']), 'raise_mode': rng.choice(raise_modes or [0, 0, 2]),
              'reply': reply, 'expected': exp, 'query': rng.randint(0, 50)}
+        if waiters and c['mode'] == 'async' and rng.random() < waiters: c['waiter'] = True
         calls.append(c); return len(calls) - 1
     def deliver(k):
         pending.remove(k); steps.append(['deliver', k]); unread.append(k); answered.append(k)
@@ -512,7 +574,9 @@ def gen_hist(rng, g, prof, ncalls=None, pick=None, modes=None, raise_modes=None)
                 for p in [p for p in list(pending) if rng.random() < 0.5]: deliver(p)
                 if answered and rng.random() < 0.1: steps.append(['stray', rng.choice(answered), k])
                 steps.append(['deliver', k]); answered.append(k)
-        elif act == 'deliver': deliver(rng.choice(pending))
+        elif act == 'deliver':
+            k = rng.choice(pending); deliver(k)
+            if calls[k].get('waiter'): steps.append(['read', k, [rng.randrange(4) for _ in range(rng.randint(1, 3))]])
         elif act == 'rpc_huge': steps.append(['rpc_huge', rng.choice([k for k in asyncs if k in pending or k in unread]), rng.random() < 0.5])
         elif act == 'stray': steps.append(['stray', rng.choice(answered), rng.randrange(len(calls))])
         elif act == 'read':
@@ -557,6 +621,24 @@ def repeat_hist_cases(rng, tier):
     g = X.DocGen(rng, max_depth=3, max_kids=3, same_local_attrs=0.04)
     return [gen_repeat_hist(rng, g, prof, path) for _ in range(n) for prof in PROFILES for path in REPEAT_PATHS[prof]]
 
+# woken threads (round 8): every path on which something is done to the reply object at delivery (its class, the call's huge-tree flag, the
+# profile's repair of the parsing hook), with a thread of the caller woken by the delivery: blocked in the synchronous call while another
+# thread delivers, or waiting on rpc.event of an asynchronous call and reading the reply at once
+def race_hist_cases(rng, tier):
+    n = 2 if tier == 'quick' else 20
+    g = X.DocGen(rng, max_depth=3, max_kids=3, same_local_attrs=0.04)
+    out = []
+    for _ in range(n):
+        for prof in PROFILES:
+            for op, ns in REPEAT_PATHS[prof]:
+                def pick(op=op, ns=ns):
+                    for _ in range(5):
+                        try: return (op,) + gen_reply(rng, g, op, schema_ns=ns)
+                        except Exception: continue
+                    return (op, R('<data/>'), None)
+                out.append(gen_hist(rng, g, prof, ncalls=rng.choice([1, 2, 3]), pick=pick, modes=['syncthread', 'async'], waiters=1.0))
+    return out
+
 def big_hist_cases(tier):
     """replies at libxml2's limits delivered after request() returned / while the caller waits: every operation that enables huge-tree
     support by itself, and plain operations under a Manager setting that changes before the reply comes"""
@@ -596,7 +678,12 @@ def big_hist_cases(tier):
     out.append(again('default', False, 'get_schema', ['sync', 'sync', 'async'], T))
     out.append(again('junos', True, 'get', ['sync', 'sync', 'sync'], D))
     out.append(again('alu', True, 'get', ['sync', 'sync'], T))
+    # a thread waiting on rpc.event reads the reply the moment it is woken: the call's huge-tree support and the Junos repair are in place by then
+    out.append(again('junos', False, 'get_schema', ['async'], T, data_ns=BASE, waiter=True))
+    out.append(again('sros', False, 'md_cli_raw_command', ['async', 'syncthread'], D, waiter=True))
     if tier == 'thorough':
+        for prof, op in forced:
+            for big in (T, D): out.append(again(prof, False, op, ['async', 'async'], big, waiter=True))
         for prof, op in forced:
             for big in (T, D): out.append(again(prof, False, op, ['sync', 'async', 'syncthread', 'sync'], big))
         for prof in PROFILES:
@@ -734,6 +821,10 @@ PINNED_HIST = [
       [['call', 0], ['call', 1], ['deliver', 1], ['deliver', 0], ['read', 0, [2]], ['call', 2], ['deliver', 2], ['read', 2, [2, 0]], ['call', 3], ['deliver', 3], ['call', 4], ['deliver', 4]]),
     H('alu', False, [C('get', 'sync', '<data xmlns:p="urn:p"><p:a p:k="v"><b xmlns="urn:b"/>x</p:a></data>')] * 3, [['call', 0], ['deliver', 0], ['call', 1], ['deliver', 1], ['call', 2], ['deliver', 2]]),
     H('sros', True, [C('md_cli_raw_command', 'sync', '<results xmlns="urn:s"><l>1</l> </results>')] * 3, [['call', 0], ['deliver', 0], ['call', 1], ['deliver', 1], ['call', 2], ['deliver', 2]]),
+    # threads woken by the delivery (round 8): the caller blocked in get_schema / a thread waiting on rpc.event finds the reply complete
+    H('junos', False, [C('get_schema', 'syncthread', '<data>module j { }</data>')], [['call', 0], ['deliver', 0]]),
+    H('junos', False, [dict(C('get_schema', 'async', '<data xmlns="">module j { }</data>'), waiter=True), dict(C('get', 'async', '<data><a xmlns="urn:a"/></data>'), waiter=True)],
+      [['call', 0], ['call', 1], ['deliver', 1], ['read', 1, [2, 0]], ['deliver', 0], ['read', 0, [2]]]),
     # the caller switches huge-tree support on the asynchronous object itself
     H('alu', False, [C('get_config', 'async', '<data><c/></data>')], [['call', 0], ['rpc_huge', 0, True], ['deliver', 0], ['rpc_huge', 0, False], ['read', 0, [2]]]),
 ]
@@ -764,6 +855,7 @@ def run(ctx):
     cases += hist_cases(ctx.rng, ctx.tier)
     cases += repeat_hist_cases(ctx.rng, ctx.tier)
     cases += big_hist_cases(ctx.tier)
+    cases += race_hist_cases(ctx.rng, ctx.tier)
     if ctx.tier == 'thorough': cases += big_cases()
     pending = []
     for case in cases:
@@ -774,7 +866,7 @@ def run(ctx):
         if case.get('kind') == 'hist':
             ctx.hist('kind', 'history')
             for c in case['calls']:
-                ctx.hist('op', c['op']); ctx.hist('mode', c['mode'])
+                ctx.hist('op', c['op']); ctx.hist('mode', c['mode'] + (' + thread waiting on rpc.event' if c.get('waiter') and c['mode'] == 'async' else ''))
                 if 'big' in c: ctx.hist('big', '%s %s %s' % (c['big'][0], c['mode'], c['op']))
             for st in case['steps']: ctx.hist('step', st[0])
         else:
@@ -801,7 +893,7 @@ def run(ctx):
 def search(ctx, seeds):
     import random
     rng = random.Random(ctx.seed + 1)
-    tries = list(seeds) + [json.loads(json.dumps(c)) for c in PINNED_HIST] + big_hist_cases('quick') + repeat_hist_cases(rng, 'quick') + hist_cases(rng, 'quick') + [jsonable(c) for c in cases_for(rng, 'quick')]
+    tries = list(seeds) + [json.loads(json.dumps(c)) for c in PINNED_HIST] + big_hist_cases('quick') + race_hist_cases(rng, 'quick') + repeat_hist_cases(rng, 'quick') + hist_cases(rng, 'quick') + [jsonable(c) for c in cases_for(rng, 'quick')]
     from vlib import findings
     for case in tries:
         r = evaluate(case)
